@@ -116,6 +116,7 @@ type CheckRun struct {
 	Abstracted   map[string]bool
 	Samples      []map[string]any
 	Bounded      []map[string]any
+	Slow         []map[string]any // obligations that took more than a second
 	Notes        []string
 	ProvedNames  []string
 	EngineErrors []string
@@ -221,6 +222,9 @@ func (cr *CheckRun) VerifyEncoded(e *FuncEnc, entry string, filter func(o *Oblig
 	for _, o := range mine {
 		cr.mu.Lock()
 		cr.Obligations++
+		if o.Secs > 1.0 {
+			cr.Slow = append(cr.Slow, map[string]any{"obligation": o.Name, "secs": round3(o.Secs), "solver": o.Solver, "status": o.Status})
+		}
 		if o.Status == "proved" {
 			cr.Discharged++
 			cr.ProvedNames = append(cr.ProvedNames, o.Name)
@@ -385,6 +389,7 @@ func (cr *CheckRun) Finish(level string, checker string, trusted []string, rule 
 		"discharged_by":  solverWins,
 		"abstracted":     sortedKeys(cr.Abstracted),
 		"bounded_parts":  cr.Bounded,
+		"slow_obligations": slowest(cr.Slow, 8),
 		"notes":          cr.Notes,
 		"exhaustive":     false,
 	}
@@ -424,4 +429,12 @@ type ReplayResult struct {
 func regexpMatch(pat, s string) bool {
 	re, err := regexp.Compile(pat)
 	return err == nil && re.MatchString(s)
+}
+
+func slowest(xs []map[string]any, n int) []map[string]any {
+	sort.Slice(xs, func(i, j int) bool { return xs[i]["secs"].(float64) > xs[j]["secs"].(float64) })
+	if len(xs) > n {
+		xs = xs[:n]
+	}
+	return xs
 }
